@@ -8,10 +8,12 @@ import (
 	"verif/checks/c07"
 	"verif/checks/c08"
 	"verif/checks/c11"
+	"verif/checks/c12"
 	"verif/checks/c17"
 )
 
 func init() {
+	register("C12", "model_checking", c12.Run)
 	register("C08", "exploration", c08.Run)
 	register("C17", "exploration", c17.Run)
 	register("C03", "model_checking", c03.Run)
